@@ -273,6 +273,9 @@ def cases(tier, seed):
     for frames in ([], [1], [1, 2]):
         for pre in (False, True):
             out.append({"part": "wait", "frames": frames, "pre_received": pre, "P": P})
+    from checks import c05
+    for a in range(len(c05.FULL)):
+        out.append({"part": "layouts", "first": a})
     return out
 
 
@@ -308,7 +311,85 @@ def _unj(e):
     return tuple(e)
 
 
+def run_layouts(case, st):
+    """Producer -> bus -> consumer for every 1- and 2-field layout of C05's full field alphabet (boundary values)."""
+    import canopen
+    from checks import c05
+    simenv.new_world()
+    bus = simenv.SimBus("inline")
+    A, B = canopen.Network(), canopen.Network()
+    bus.attach(A, "m")
+    bus.attach(B, "d")
+    from canopen.objectdictionary import ODArray, ODRecord, ODVariable, ObjectDictionary, datatypes as dt
+    o = ObjectDictionary()
+    idx = {}
+    for i, n in enumerate(c05.TYPES):
+        v = ODVariable("T_" + n, 0x2000 + i)
+        v.data_type = getattr(dt, n)
+        o.add_object(v)
+        idx[n] = 0x2000 + i
+    r = ODRecord("com", 0x1400)
+    for s_, (n, t) in enumerate([("n", dt.UNSIGNED8), ("cob", dt.UNSIGNED32), ("tt", dt.UNSIGNED8)]):
+        x = ODVariable(n, 0x1400, s_)
+        x.data_type = t
+        r.add_member(x)
+    o.add_object(r)
+    a = ODArray("map", 0x1600)
+    for s_ in range(9):
+        x = ODVariable("m%d" % s_, 0x1600, s_)
+        x.data_type = dt.UNSIGNED8 if s_ == 0 else dt.UNSIGNED32
+        a.add_member(x)
+    o.add_object(a)
+    v = ODVariable("hb", 0x1017)
+    v.data_type = dt.UNSIGNED16
+    v.default = 0
+    o.add_object(v)
+    master, dev = A.add_node(5, o), B.create_node(5, o)
+    pm, cm = master.rpdo[1], dev.rpdo[1]
+    for m in (pm, cm):
+        m.cob_id, m.enabled = 0x205, True
+    cm.subscribe()
+    first = c05.FULL[case["first"]]
+    layouts = [[first]] + [[first, b] for b in c05.FULL if first[1] + b[1] <= 64]
+    for lay in layouts:
+        for m in (pm, cm):
+            m.clear()
+            for name, length in lay:
+                m.add_variable(idx[name], 0, length)
+        for fi, (name, length) in enumerate(lay):
+            w, sg = c05.TYPES[name]
+            for val in c05.field_values(name, length, False):
+                st.evaluations += 1
+                rc = dict(case, layout=[list(f) for f in lay], field=fi, v=val)
+                try:
+                    if sg is None:
+                        pm[fi].data = c05.to_bits(name, length, val).to_bytes(w // 8, "little")
+                    elif name == "BOOLEAN":
+                        pm[fi].raw = bool(val)
+                    else:
+                        pm[fi].raw = val
+                    ts = simenv.W.now
+                    pm.transmit()
+                    if bytes(cm.data) != bytes(pm.data) or cm.timestamp != ts:
+                        st.violation("C15:layout:frame-or-timestamp", rc, (bytes(pm.data).hex(), ts), (bytes(cm.data).hex(), cm.timestamp))
+                        continue
+                    for fk in range(len(lay)):
+                        if bytes(cm[fk].data) != bytes(pm[fk].data):
+                            st.violation("C15:layout:consumer-value", rc, bytes(pm[fk].data).hex(), bytes(cm[fk].data).hex())
+                            break
+                    want = c05.object_bytes(name, length, c05.to_bits(name, length, val))
+                    if name != "BOOLEAN" and bytes(cm[fi].data) != want:
+                        st.violation("C15:layout:written-value", rc, want.hex(), bytes(cm[fi].data).hex())
+                except Exception as e:  # noqa: BLE001
+                    st.violation(f"C15:layout:raises:{type(e).__name__}", rc, "value transferred", repr(e)[:100])
+        st.nontrivial_n += 1
+    st.outcome("layouts ok")
+    st.sample({"layouts first field": list(first), "layouts": len(layouts)}, cap=2)
+
+
 def run_case(case, st):
+    if case["part"] == "layouts":
+        return run_layouts(case, st)
     if case["part"] == "bfs":
         w = World()
         v = []
